@@ -3,6 +3,7 @@ package gctl
 import (
 	"fmt"
 	"slices"
+	"strings"
 
 	"verif/harness/gp"
 	"verif/harness/res"
@@ -17,8 +18,8 @@ type Problem struct {
 type ctl struct {
 	name    string
 	outType string
-	fin     bool   // puts its finalizer on inputs
-	liveTD  bool   // treats tearing-down inputs as live (transform WithIgnoreTearingDownInputs)
+	fin     bool // puts its finalizer on inputs
+	liveTD  bool // treats tearing-down inputs as live (transform WithIgnoreTearingDownInputs)
 }
 
 func controllers(o Opts) []ctl {
@@ -71,6 +72,12 @@ func CheckC06(o *Outcome) []Problem {
 		bad("registration-failed", "%s", e)
 	}
 
+	abaIDs := abaOverwrites(o)
+
+	for id, ats := range abaIDs {
+		bad(SigABA, "input %s: commit(s) %v replace the finalizers of a re-created input with a set derived from an earlier incarnation of the same version", id, ats)
+	}
+
 	for _, c := range controllers(o.Opts) {
 		live := func(in *gp.Snap) bool {
 			if in == nil {
@@ -86,6 +93,10 @@ func CheckC06(o *Outcome) []Problem {
 
 		for stage, st := range map[string]map[gp.Key]*gp.Snap{"stage1": o.Stage1, "stage2": o.Stage2} {
 			for _, id := range ids {
+				if len(abaIDs[id]) > 0 {
+					continue // this input's finalizers were hit by an ABA overwrite (reported on its own below)
+				}
+
 				in := st[key(res.TypeA, id)]
 				out := st[key(c.outType, id)]
 
@@ -142,7 +153,9 @@ func CheckC06(o *Outcome) []Problem {
 			}
 
 			// while the user's function postpones the finalizer removal the controller must leave the output alone
-			if o.Opts.PostponeRemoval && c.fin && stage == "stage1" {
+			// (judged for uncached kinds only: reading through a lagging cache the controller may not have seen its own finalizer on
+			// the input yet, treats the input as not its business and cleans the output up - the statement does not forbid that)
+			if o.Opts.PostponeRemoval && !o.Opts.Cached && c.fin && stage == "stage1" {
 				shadow := map[gp.Key]*gp.Snap{}
 
 				for _, cm := range o.Log {
@@ -201,6 +214,12 @@ func CheckC06(o *Outcome) []Problem {
 	}
 
 	for _, e := range o.DestroyErrs {
+		if slices.ContainsFunc(ids, func(id string) bool {
+			return len(abaIDs[id]) > 0 && strings.HasPrefix(e, key(res.TypeA, id).String()+":")
+		}) {
+			continue
+		}
+
 		sig := "torn-down-input-not-destroyable"
 		if o.Opts.QTIgnoreWhile {
 			sig = SigQTIgnore
@@ -212,6 +231,89 @@ func CheckC06(o *Outcome) []Problem {
 	return ps
 }
 
+// SigABA is the signature of the recorded finding "ABA on restarting versions" (C04, DESIGN section 4 #9) as it shows in controller-driven
+// lifecycles: an input is destroyed and re-created, and a conflict-retrying helper of a controller (AddFinalizer, RemoveFinalizer ...)
+// that had read the EARLIER incarnation at version v writes its result over the NEW incarnation once that reached v as well - the
+// finalizers the new incarnation had collected are silently replaced.
+const SigABA = "aba-recreate-same-version"
+
+// abaOverwrites returns, per input id, the log positions of update commits on inputs that can only be explained as such an overwrite:
+// the finalizer set written is not "the previous value with one finalizer added or removed", but it is exactly that for a state of an
+// earlier incarnation of the same id that carried the same version number.
+func abaOverwrites(o *Outcome) map[string][]int {
+	out := map[string][]int{}
+	older := map[string]map[uint64][]*gp.Snap{} // id -> version -> states of earlier incarnations
+	cur := map[string]map[uint64]*gp.Snap{}     // id -> version -> state of the current incarnation
+
+	oneStep := func(from, to []string) bool {
+		a, b := map[string]bool{}, map[string]bool{}
+		for _, f := range from {
+			a[f] = true
+		}
+
+		for _, f := range to {
+			b[f] = true
+		}
+
+		diff := 0
+
+		for f := range a {
+			if !b[f] {
+				diff++
+			}
+		}
+
+		for f := range b {
+			if !a[f] {
+				diff++
+			}
+		}
+
+		return diff <= 1
+	}
+
+	for _, c := range o.Log {
+		if c.Key.Type != res.TypeA {
+			continue
+		}
+
+		id := c.Key.ID
+
+		switch c.Op {
+		case "create":
+			cur[id] = map[uint64]*gp.Snap{c.Post.Ver: c.Post}
+		case "destroy":
+			if older[id] == nil {
+				older[id] = map[uint64][]*gp.Snap{}
+			}
+
+			for v, s := range cur[id] {
+				older[id][v] = append(older[id][v], s)
+			}
+
+			delete(cur, id)
+		case "update":
+			if c.Pre != nil && c.Actor != "ext" && !oneStep(c.Pre.Fins, c.Post.Fins) {
+				for _, p := range older[id][c.Pre.Ver] {
+					if oneStep(p.Fins, c.Post.Fins) {
+						out[id] = append(out[id], c.Seq)
+
+						break
+					}
+				}
+			}
+
+			if cur[id] == nil {
+				cur[id] = map[uint64]*gp.Snap{}
+			}
+
+			cur[id][c.Post.Ver] = c.Post
+		}
+	}
+
+	return out
+}
+
 // CheckC07 runs the safety monitors over every prefix of the write log.
 //
 //nolint:gocyclo,cyclop,gocognit
@@ -219,7 +321,14 @@ func CheckC07(o *Outcome) ([]Problem, map[string]int) {
 	var ps []Problem
 
 	cov := map[string]int{}
+	curTainted := false // the commit under judgement concerns an input whose finalizers were hit by an ABA overwrite (reported on its own)
 	bad := func(sig, f string, a ...any) {
+		if curTainted {
+			cov["violations_attributed_to_aba_overwrite"]++
+
+			return
+		}
+
 		if o.Opts.QTIgnoreWhile {
 			sig = SigQTIgnore
 		}
@@ -227,13 +336,31 @@ func CheckC07(o *Outcome) ([]Problem, map[string]int) {
 		ps = append(ps, Problem{Sig: sig, Detail: fmt.Sprintf(f, a...)})
 	}
 
+	aba := abaOverwrites(o)
+	tainted := func(id string, seq int) bool { // an ABA overwrite hit this input at or before seq
+		for _, at := range aba[id] {
+			if at <= seq {
+				return true
+			}
+		}
+
+		return false
+	}
+
+	for id, ats := range aba {
+		cov["aba_overwrites"] += len(ats)
+
+		ps = append(ps, Problem{Sig: SigABA, Detail: fmt.Sprintf("input %s: commit(s) %v replace the finalizers of a re-created input with a set derived from an earlier incarnation of the same version", id, ats)})
+	}
+
 	cs := controllers(o.Opts)
 	state := map[gp.Key]*gp.Snap{}
-	handlerOK := map[string]int{} // input id -> seq of the latest "handler-ok" note of the current incarnation
+	handlerOK := map[string]int{}  // input id -> seq of the latest "handler-ok" note of the current incarnation
 	lateChild := map[gp.Key]bool{} // children created (by the harness's racing actors) after their parent was already tearing down or gone
 
 	for _, c := range o.Log {
 		id := c.Key.ID
+		curTainted = tainted(id, c.Seq)
 
 		switch {
 		case c.Op == "note":
